@@ -1670,3 +1670,24 @@ ref("tilde-gate-in-code", ["C12", "C05"], "expand_home: the `~` / `~/` test writ
 
         let mut s: String = text.clone();"""),
     (S, """        let ptn = r"^~(?P<tail>/.*)?$";""", """        let ptn = r"^~(?P<tail>.*)";"""))
+
+mut("C12", "glob-curdir-prefix-lost", "R12-14|shell::expand_glob|curdir-prefix", "matches of ./pattern recorded as glob yields them",
+    (S, """                                if item.starts_with("./") && !file_path.starts_with("./") {
+                                    // glob drops the leading `./` of the pattern
+                                    result.push(format!("./{}", file_path));
+                                } else {
+                                    result.push(file_path.to_string());
+                                }""", """                                result.push(file_path.to_string());"""))
+ref("glob-curdir-prefix-precomputed", ["C12", "C05", "C13"], "the ./ prefix computed once per pattern and prepended unconditionally",
+    (S, """            let _basename = libs::path::basename(item);
+            let show_hidden = _basename.starts_with(".*");
+""", """            let _basename = libs::path::basename(item);
+            let show_hidden = _basename.starts_with(".*");
+            let lead = if item.starts_with("./") { "./" } else { "" };
+"""),
+    (S, """                                if item.starts_with("./") && !file_path.starts_with("./") {
+                                    // glob drops the leading `./` of the pattern
+                                    result.push(format!("./{}", file_path));
+                                } else {
+                                    result.push(file_path.to_string());
+                                }""", """                                result.push(format!("{}{}", lead, file_path.trim_start_matches("./")));"""))
